@@ -682,7 +682,7 @@ func (c *c02Gen) addS(class string, vals []*c02Val, opts int, allScripts bool, n
 	ns := 17
 	tk := c.sn + c.sn/ns
 	tr := c.trailing(tk)
-	if name != "" && tot > 2500 {
+	if name != "" && tot > 12000 {
 		tr = c.trailing(tk%5) // no long trailing for the expensive named cases
 	}
 	n := tot + len(AsBytes(tr))
@@ -696,7 +696,7 @@ func (c *c02Gen) addS(class string, vals []*c02Val, opts int, allScripts bool, n
 		panic("c02: no script " + nm)
 	}
 	coarse := func(s c02Script) c02Script {
-		if alt, ok := c02Fine[s.name]; ok && n > 2500 {
+		if alt, ok := c02Fine[s.name]; ok && n > 12000 {
 			return byName(alt)
 		}
 		return s
@@ -778,7 +778,7 @@ func genC02(g *Gen) {
 			el := c.val(et, 1, 2)
 			cnt := 300 + r.Intn(1500)
 			if c02FixedW(et) == 0 { // slow path: the decoder models are quadratic in (calls x bytes)
-				if m := 3000 / len(c02Enc(nil, el)); cnt > m {
+				if m := 12000 / len(c02Enc(nil, el)); cnt > m {
 					cnt = m + 2
 				}
 			}
@@ -832,7 +832,7 @@ func genC02(g *Gen) {
 	{
 		f := c02Field{8, 7, c02Scalar(8, 0x01020304)}
 		v := &c02Val{T: 12}
-		for i := 0; i < 640; i++ {
+		for i := 0; i < 2000; i++ {
 			v.Fields = append(v.Fields, f)
 		}
 		c.add("struct-big", one(v), 2, false)
@@ -912,7 +912,7 @@ func genC02(g *Gen) {
 		c.addS("struct-growing", one(v), 2, false, "rand")
 	}
 	// 8. sequences on the same decoder / reader, with and without Release + reuse
-	nseq := g.Scale(260, 6000)
+	nseq := g.Scale(900, 8000)
 	for i := 0; i < nseq; i++ {
 		k := 2 + r.Intn(5)
 		var vals []*c02Val
@@ -927,7 +927,7 @@ func genC02(g *Gen) {
 		c.add("seq", vals, r.Intn(4), false)
 	}
 	// 9. random trees
-	nrand := g.Scale(900, 40000)
+	nrand := g.Scale(4000, 60000)
 	for i := 0; i < nrand; i++ {
 		t := c02Types[r.Intn(11)]
 		c.add("rand", one(c.val(t, 1+r.Intn(4), 1+r.Intn(5))), r.Intn(4), false)
